@@ -21,7 +21,7 @@ ASSUMPTIONS = ["fixed port-IDs are unregulated ones (allow_unregulated_fixed_por
 MIN_MONITORS = {"configuration": 20000, "expected-accept": 8000, "expected-reject": 5000}
 THOROUGH_MIN_SCALE = 3
 
-MODES = [("sealed", 8), ("sealed", 16), ("ext", 64), ("ext", 72)]
+MODES = [("sealed", 8), ("sealed", 16), ("ext", 64), ("ext", 72), ("sealed", 64)]  # sealed 64 vs delimited 64: equal extents, different sealing (M-reach: the sealing check was never reached otherwise)
 VERSIONS = [(0, 1), (0, 2), (1, 0), (1, 1), (1, 2), (2, 0), (2, 1)]
 PORTS = [None, 100, 101, 0, 511]  # 0 and 511: the smallest port-ID and the largest one valid for both kinds
 
